@@ -149,6 +149,8 @@ type Config struct {
 	Misuse  int      `json:"misuse"` // max misuse probes after each sequence
 	Seed    int64    `json:"seed"`
 	EveryOp bool     `json:"everyop"` // run the probe battery after every operation instead of at the end
+	Reuse   bool     `json:"reuse"`   // keep unregistered filter objects and reuse them
+	MaxEnt  int      `json:"maxent"`  // driver: soft bound on the number of alive entities
 }
 
 type regFilter struct {
@@ -175,6 +177,7 @@ type Exec struct {
 	maps    map[string]TypedMap
 	exs     map[string]TypedExchange
 	filters map[int]*regFilter
+	pool    map[string]*regFilter
 	seq     int
 	Events  int
 	Panics  int
@@ -216,6 +219,7 @@ func (x *Exec) newWorld() {
 	x.maps = map[string]TypedMap{}
 	x.exs = map[string]TypedExchange{}
 	x.filters = map[int]*regFilter{}
+	x.pool = map[string]*regFilter{}
 }
 
 func (x *Exec) relNames() []string {
@@ -523,9 +527,21 @@ func (x *Exec) filterFor(f int, flt GenFlt) *regFilter {
 		}
 		panic(fmt.Sprintf("harness: filter %d is not registered", f))
 	}
+	key := ""
+	if x.Cfg.Reuse {
+		// long-lived filter objects, as applications keep them (filters are built once and reused
+		// for queries and batches with varying per-query targets)
+		key = fmt.Sprint(flt.With, flt.Without, flt.Excl, x.tgMap(flt.Ft))
+		if rf, ok := x.pool[key]; ok {
+			return rf
+		}
+	}
 	rf, err := x.buildFilter(flt.With, flt.Without, flt.Excl, x.tgMap(flt.Ft))
 	if err != nil {
 		panic("harness: " + err.Error())
+	}
+	if x.Cfg.Reuse {
+		x.pool[key] = rf
 	}
 	return rf
 }
@@ -576,6 +592,7 @@ func (x *Exec) run(op GenOp, i int) LogOp {
 		x.ords = x.ords[:0]
 		x.issued = x.issued[:0]
 		x.filters = map[int]*regFilter{}
+		x.pool = map[string]*regFilter{}
 	}
 	lo.St = x.project()
 	return lo
@@ -724,6 +741,27 @@ func (x *Exec) dispatch(op GenOp, e ecs.Entity, tg map[string]ecs.Entity, lo *Lo
 		x.mapFor(tuple).SetRelations(e, x.typedRels(tuple, tg))
 	case "Kill":
 		w.RemoveEntity(e)
+	case "Read":
+		// checked read access: Get / Has / GetRelation through the path under test
+		c := op.Add[0]
+		switch op.Mode {
+		case "has":
+			if unsafePath {
+				_ = u.Has(e, x.ids[c])
+			} else {
+				_ = x.mapFor([]string{c}).HasAll(e)
+			}
+		case "rel":
+			_ = x.readTarget(e, c)
+		case "ids":
+			_ = u.IDs(e)
+		default:
+			if unsafePath {
+				_ = u.Get(e, x.ids[c])
+			} else {
+				_ = x.mapFor([]string{c}).Get(e)
+			}
+		}
 	case "AddBatch", "ExchangeBatch":
 		rf := x.filterFor(op.F, op.Flt)
 		b := x.batchOf(rf, x.tgMap(op.Flt.Qt))
@@ -986,6 +1024,174 @@ func (x *Exec) battery() {
 	}
 }
 
+// misuseOps enumerates calls that violate a documented precondition in the current state (C10):
+// dead / recycled / zero handles in every checked single-entity operation, duplicate add, remove of a
+// missing component, empty component lists, missing or dead relation targets.
+func (x *Exec) misuseOps() []GenOp {
+	ops := []GenOp{}
+	comps := x.Cfg.Comps
+	var plain, rels []string
+	for _, c := range comps {
+		if isRelName(c) {
+			rels = append(rels, c)
+		} else {
+			plain = append(plain, c)
+		}
+	}
+	mk := func(op string, e int, add, rem []string, tg FlexMap[int], mode string) GenOp {
+		vals := FlexMap[int64]{}
+		for _, c := range add {
+			vals[c] = 77
+		}
+		if tg == nil {
+			tg = FlexMap[int]{}
+		}
+		return GenOp{Op: op, E: e, Add: add, Rem: rem, Vals: vals, Tg: tg, N: 1, Mode: mode,
+			Flt: GenFlt{With: []string{}, Without: []string{}, Ft: FlexMap[int]{}, Qt: FlexMap[int]{}}}
+	}
+	none := []string{}
+	dead := []int{0}
+	alive := []int{}
+	for i, h := range x.ords {
+		if x.w.Alive(h) {
+			alive = append(alive, i+1)
+		} else {
+			dead = append(dead, i+1)
+		}
+	}
+	firstDead := 0
+	if len(dead) > 1 {
+		firstDead = dead[1]
+	}
+	for _, d := range dead {
+		for _, c := range plain {
+			ops = append(ops, mk("Add", d, []string{c}, none, nil, "val"), mk("Remove", d, none, []string{c}, nil, "val"),
+				mk("Set", d, []string{c}, none, nil, "val"), mk("Read", d, []string{c}, none, nil, "get"),
+				mk("Read", d, []string{c}, none, nil, "has"))
+		}
+		if len(plain) > 1 {
+			ops = append(ops, mk("Exchange", d, []string{plain[1]}, []string{plain[0]}, nil, "val"))
+		}
+		for _, r := range rels {
+			ops = append(ops, mk("SetRel", d, none, none, FlexMap[int]{r: 0}, "val"), mk("Read", d, []string{r}, none, nil, "rel"),
+				mk("Add", d, []string{r}, none, FlexMap[int]{r: 0}, "val"))
+		}
+		ops = append(ops, mk("Kill", d, none, none, nil, "val"), mk("Copy", d, none, none, nil, "val"),
+			mk("Read", d, []string{comps[0]}, none, nil, "ids"))
+	}
+	for _, a := range alive {
+		h := x.ords[a-1]
+		has := map[string]bool{}
+		ids := x.w.Unsafe().IDs(h)
+		for i := 0; i < ids.Len(); i++ {
+			has[x.names[ids.Get(i)]] = true
+		}
+		for _, c := range comps {
+			tg := FlexMap[int]{}
+			if isRelName(c) {
+				tg[c] = 0
+			}
+			if has[c] {
+				ops = append(ops, mk("Add", a, []string{c}, none, tg, "val"))
+				if len(plain) > 0 && !has[plain[0]] {
+					ops = append(ops, mk("Exchange", a, []string{c}, none, tg, "val"))
+				}
+			} else {
+				ops = append(ops, mk("Remove", a, none, []string{c}, nil, "val"), mk("Set", a, []string{c}, none, nil, "val"))
+				if isRelName(c) {
+					ops = append(ops, mk("Add", a, []string{c}, none, nil, "val")) // relation target omitted
+					if firstDead > 0 {
+						ops = append(ops, mk("Add", a, []string{c}, none, FlexMap[int]{c: firstDead}, "val"))
+					}
+				}
+			}
+			if has[c] && isRelName(c) && firstDead > 0 {
+				ops = append(ops, mk("SetRel", a, none, none, FlexMap[int]{c: firstDead}, "val"))
+			}
+		}
+		if x.Cfg.Path == "unsafe" {
+			// empty component lists can only be expressed through the ID-based API
+			ops = append(ops, mk("Add", a, none, none, nil, "val"), mk("Remove", a, none, none, nil, "val"),
+				mk("Exchange", a, none, none, nil, "val"))
+		}
+	}
+	// batch forms: the selection is every alive entity (non-empty), at least one of which violates
+	if len(alive) > 0 && x.Cfg.Path != "unsafe" {
+		hasAny := map[string]bool{}
+		lacksAny := map[string]bool{}
+		for _, a := range alive {
+			ids := x.w.Unsafe().IDs(x.ords[a-1])
+			has := map[string]bool{}
+			for i := 0; i < ids.Len(); i++ {
+				has[x.names[ids.Get(i)]] = true
+			}
+			for _, c := range comps {
+				if has[c] {
+					hasAny[c] = true
+				} else {
+					lacksAny[c] = true
+				}
+			}
+		}
+		all := GenFlt{With: []string{}, Without: []string{}, Ft: FlexMap[int]{}, Qt: FlexMap[int]{}}
+		for _, c := range comps {
+			tg := FlexMap[int]{}
+			if isRelName(c) {
+				tg[c] = 0
+			}
+			if hasAny[c] {
+				o := mk("AddBatch", 0, []string{c}, none, tg, "fn")
+				o.Flt = all
+				ops = append(ops, o)
+			}
+			if lacksAny[c] {
+				o := mk("RemoveBatch", 0, none, []string{c}, nil, "fn")
+				o.Flt = all
+				ops = append(ops, o)
+			}
+			if isRelName(c) && !hasAny[c] {
+				o := mk("AddBatch", 0, []string{c}, none, nil, "fn") // relation target omitted
+				o.Flt = all
+				ops = append(ops, o)
+				if firstDead > 0 {
+					o2 := mk("AddBatch", 0, []string{c}, none, FlexMap[int]{c: firstDead}, "fn")
+					o2.Flt = all
+					ops = append(ops, o2)
+				}
+			}
+			if isRelName(c) && hasAny[c] && firstDead > 0 {
+				o := mk("SetRelBatch", 0, none, none, FlexMap[int]{c: firstDead}, "fn")
+				o.Flt = GenFlt{With: []string{c}, Without: []string{}, Ft: FlexMap[int]{}, Qt: FlexMap[int]{}}
+				ops = append(ops, o)
+			}
+		}
+	}
+	for _, r := range rels {
+		ops = append(ops, mk("New", 0, []string{r}, none, nil, "val")) // relation target omitted
+		if firstDead > 0 {
+			ops = append(ops, mk("New", 0, []string{r}, none, FlexMap[int]{r: firstDead}, "val"))
+		}
+	}
+	return ops
+}
+
+func (x *Exec) misuseBattery(i int) {
+	if x.Cfg.Misuse == 0 {
+		return
+	}
+	ops := x.misuseOps()
+	n := len(ops)
+	if x.Cfg.Misuse > 0 && x.Cfg.Misuse < n {
+		x.rng.Shuffle(len(ops), func(a, b int) { ops[a], ops[b] = ops[b], ops[a] })
+		n = x.Cfg.Misuse
+	}
+	for k, op := range ops[:n] {
+		lo := x.run(op, i+k+1)
+		lo.K = "op"
+		x.emit(lo)
+	}
+}
+
 // RunSequence executes one generated sequence on a fresh world.
 func (x *Exec) RunSequence(ops []GenOp, note string) {
 	x.seq++
@@ -1001,4 +1207,5 @@ func (x *Exec) RunSequence(ops []GenOp, note string) {
 	if !x.Cfg.EveryOp {
 		x.battery()
 	}
+	x.misuseBattery(len(ops))
 }
